@@ -214,11 +214,15 @@ func (s *SoftwrapScanner) Scan(ctx vxfw.DrawContext) bool {
 		if wordLen > s.width {
 			s.rest = []byte{}
 			// Append characters to token until we reach the end
-			for _, char := range wordChars {
-				if w >= s.width {
+			for i, char := range wordChars {
+				// The line is full, or it already has content and
+				// this grapheme would overflow it
+				if w >= s.width || (w > 0 && w+uint16(char.Width) > s.width) {
 					// Append the rest to rest
-					s.rest = append(s.rest, []byte(char.Grapheme)...)
-					continue
+					for _, c := range wordChars[i:] {
+						s.rest = append(s.rest, []byte(c.Grapheme)...)
+					}
+					break
 				}
 				s.token = append(s.token, []byte(char.Grapheme)...)
 				w += uint16(char.Width)
